@@ -137,6 +137,7 @@ def run_one(ns, clsname, flavor, kind, faults, tmp, tag):
     for f in (f1, f2):
         with open(f, "w") as fh:
             json.dump(init, fh)
+    stuck_all = []
     x, y, z = cls(f1), cls(f1), cls(f2)
     x(); y(); z()
     nested_child = x[1] if is_list else x["n"]       # obtained before any fault is injected
@@ -246,7 +247,7 @@ def run_one(ns, clsname, flavor, kind, faults, tmp, tag):
         for f in (f1, f2):
             with open(f, "w") as fh:
                 json.dump(init, fh)
-        stuck = []
+        stuck = stuck_all
 
         def other(o, name):
             try:
@@ -255,8 +256,25 @@ def run_one(ns, clsname, flavor, kind, faults, tmp, tag):
             except BaseException as e:  # noqa
                 if type(e).__name__ not in ("BufferedError", "MetadataError"):
                     stuck.append(f"{name}: raised {type(e).__name__}: {e}")
-        for o, name in ((y, "same file"), (z, "other file")):
-            th = threading.Thread(target=other, args=(o, name), daemon=True)
+        def same_object():
+            # the operated object itself, from another thread, with operations that re-enter its lock
+            # (a list reset that grows the list extends inside the load-and-save section; buffered loads take the lock again)
+            try:
+                if is_list:
+                    x.reset([1, 2, 3, 4, 5])
+                    x.append(6)
+                else:
+                    x.reset({"s": {"t": [1]}})
+                    x["s"]["t"].append(2)
+                x()
+            except BaseException as e:  # noqa
+                if type(e).__name__ not in ("BufferedError", "MetadataError"):
+                    stuck.append(f"same object: raised {type(e).__name__}: {e}")
+        probes = [(other, (y, "same file"), "same file"), (other, (z, "other file"), "other file")]
+        if kind not in ("KExitCls",):
+            probes.append((same_object, (), "same object"))
+        for fn_, args_, name in probes:
+            th = threading.Thread(target=fn_, args=args_, daemon=True)
             th.start()
             th.join(3)
             if th.is_alive():
@@ -269,8 +287,8 @@ def run_one(ns, clsname, flavor, kind, faults, tmp, tag):
     finally:
         cls._save_to_resource = orig_save
         try:
-            if ctx is not None:
-                ctx.__exit__(None, None, None)
+            if ctx is not None and not any("blocked" in m for m in stuck_all):
+                ctx.__exit__(None, None, None)      # (skipped when a probe thread is stuck holding a lock: it would block here too)
         except BaseException:  # noqa
             pass
         reset_buffer_state(cls)
